@@ -40,10 +40,10 @@ REVIEWED = {
     ("compile_unpack_nested_args_of_tuple", "-(args.len() as i8 - 1) as u8"): ("nested-arg-ellipsis-first", "as above"),
     ("compile_multi_assign", "i as u8"): ("multi-assign-temp-sparse, multi-assign-temp-chain, multi-assign-temp-fields",
         "TempIndex index, read as i8. NOT bounded by registers: targets `_`, `m[i]`, `m.k` take none; the only check is "
-        "targets.len() < 255. F-C05-15 (open; requests/C05-fix-7.diff)"),
+        "targets.len() < 255 — until 07b081f (F-C05-15, fixed): max(targets, values) <= 128 for a temporary tuple"),
     ("compile_multi_assign", "0..nodes_len as u8"): ("multi-assign-temp-result",
         "TempIndex index, read as i8, one per VALUE of the temporary tuple: values take a register each (so < 256) "
-        "but the i8 limit is 128. F-C05-15 (open)"),
+        "but the i8 limit is 128 (F-C05-15, fixed by 07b081f: values <= 128)"),
     ("compile_meta_export", "meta_id as u8"): ("-", "enum discriminant (MetaKeyId, < 64)"),
     ("push_var_u32", "(n & 0x7f) as u8"): ("-", "masked"),
     ("compile_string", "size_hint as u32"): ("interpolation-nodes", "string data is bounded by the 4 GiB constant pool"),
@@ -62,7 +62,7 @@ REVIEWED = {
     ("compile_match_arm_patterns", "(arm_patterns.len() - pattern_index) as i8"): ("match-ellipsis-first", "only with an ellipsis, i.e. in nested patterns (limited to 127 by d6cca87)"),
     ("compile_match_arm_patterns", "pattern_index as i8"): ("match-index-sparse, match-nested-literals, match-multi-literals, match-multi-sparse",
         "TempIndex / index read as i8. Nested patterns are limited to 127 (d6cca87); the patterns of a multi-value "
-        "match arm are NOT limited, and literal / `_` patterns take no register. F-C05-16 (open; requests/C05-fix-7.diff)"),
+        "match arm were NOT limited although literal / `_` patterns take no register (F-C05-16); 07b081f limits every arm to 127"),
     ("compile_match_arm_patterns", "pattern_index as u8"): ("as `pattern_index as i8`", "re-cast of the i8 index"),
     ("compile_match_arm_patterns", "arm_patterns.len() as i8"): ("match-ellipsis-first / -last", "nested only (ellipsis), limited to 127"),
     ("compile_match_arm_patterns", "-(arm_patterns.len() as i8 - 1) as u8"): ("match-ellipsis-first", "as above"),
